@@ -1,5 +1,6 @@
 import TdxModel.Proto
 import TdxModel.Drive.Client
+import TdxModel.Drive.Abi
 
 open Tdx Tdx.Proto Tdx.Drive
 
@@ -7,21 +8,31 @@ def dispatch (l : Line) : P String :=
   match l.op with
   | "C15.dev" => c15dev l
   | "C15.prov" => c15prov l
+  | "C09.parse" => c09parse l
+  | "C09.ser" => c09ser l
   | op => .error s!"unknown op {op}"
 
-partial def loop (h : IO.FS.Stream) (out : IO.FS.Stream) : IO Unit := do
+partial def loop (h : IO.FS.Stream) (out : IO.FS.Stream) (blobs : List (Nat × Bytes)) : IO Unit := do
   let line ← h.getLine
   if line.isEmpty then return ()
-  let l := parseLine line
+  let l := { parseLine line with blobs := blobs }
   if l.op == "" || l.op.startsWith "#" then
-    loop h out
+    loop h out blobs
+  else if l.op == "DEF" then
+    match (do let i ← l.nat "id"; let b ← l.bytes "b"; pure (i, b) : P (Nat × Bytes)) with
+    | .ok (i, b) =>
+      out.putStrLn "def"
+      loop h out ((i, b) :: blobs.filter (·.1 != i))
+    | .error e =>
+      out.putStrLn s!"DRIVER-ERROR {e}"
+      loop h out blobs
   else
     match dispatch l with
     | .ok s => out.putStrLn s
     | .error e => out.putStrLn s!"DRIVER-ERROR {e}"
-    loop h out
+    loop h out blobs
 
 def main : IO Unit := do
   let out ← IO.getStdout
-  loop (← IO.getStdin) out
+  loop (← IO.getStdin) out []
   out.flush
